@@ -274,7 +274,9 @@ def _make(cls, rng, variant=None):
     if cls == "CurvatureCorrection":
         v = float(rng.random()) * 1e-4
         cfg = [{"bulge": {"horizontal_bulge": v, "vertical_bulge": v / 2, "horizontal_stretch": v / 3, "vertical_stretch": 0.0, "horizontal_center_offset": 1, "vertical_center_offset": -2}},
-               {"crop": {"pts_src": [[1, 2], [20, 2], [20, 25], [1, 25]], "width": 0.9, "height": 0.5}}][int(rng.integers(2)) if variant is None else variant % 2]
+               {"crop": {"pts_src": [[1, 2], [20, 2], [20, 25], [1, 25]], "width": 0.9, "height": 0.5}},
+               # corner points as TYPED voxels (row, col) - what CurvatureCorrection.crop() / the crop assistant produce; plain lists are read as (col, row)
+               {"crop": {"pts_src": darsia.make_voxel([[2, 1], [2, 20], [22, 20], [22, 1]]), "width": 0.9, "height": 0.5}}][int(rng.integers(3)) if variant is None else variant % 3]
         return darsia.CurvatureCorrection(config=cfg)
     if cls == "IlluminationCorrection":
         ic = darsia.IlluminationCorrection()
@@ -284,7 +286,7 @@ def _make(cls, rng, variant=None):
     raise ValueError
 
 
-@ob("C18.corrections", kind="B", cases=[dict(cls=k, variant=v) for k in ("TypeCorrection", "DriftCorrection", "CurvatureCorrection", "IlluminationCorrection") for v in range(4 if k == "DriftCorrection" else 2)],
+@ob("C18.corrections", kind="B", cases=[dict(cls=k, variant=v) for k in ("TypeCorrection", "DriftCorrection", "CurvatureCorrection", "IlluminationCorrection") for v in range(4 if k == "DriftCorrection" else 3 if k == "CurvatureCorrection" else 2)],
     funcs=FUNCS, samples=(1, 3), tol=1e-12,
     cite="type, drift, curvature, illumination and colour corrections with random configurations ... reloads through the generic reader to a correction producing identical output",
     note="bounded: real npz files; ColorCorrection needs a colour-checker photograph and is covered by the structural obligation C18.saved_keys only")
